@@ -113,6 +113,8 @@ ServeClauses(g, e) ==
 EdgeClauses(cfg, g, e) ==
   CASE e.op \in {"cfg", "add", "remove", "health"} -> ObsClauses(cfg, g, e)
     [] e.op = "serve" -> ServeClauses(g, e)
+    [] e.op = "release" ->   \* a release entering at any node reaches the one pool that holds the subscriber
+         IF \E i \in Idx(e.subs) : AsSet(e.holders[i]) # {} THEN {"ServedByOne"} ELSE {}
     [] OTHER -> {}
 
 Step(cfg, g, e, obs) ==
@@ -125,6 +127,8 @@ Step(cfg, g, e, obs) ==
                                  IF g.served[s] = 0 /\ \E i \in Idx(e.subs) : e.subs[i] = s
                                  THEN e.node[CHOOSE i \in Idx(e.subs) : e.subs[i] = s]
                                  ELSE g.served[s]]]
+    [] e.op = "release" ->
+         [g EXCEPT !.served = [s \in DOMAIN g.served |-> IF \E i \in Idx(e.subs) : e.subs[i] = s THEN 0 ELSE g.served[s]]]
     [] OTHER -> g
 
 NodeClauses(cfg, g, n, lastop) == {}
